@@ -5,7 +5,7 @@ Assumed (regex wrappers): RegexLexer._match / RegexLexer.search satisfy the same
 Bounded (labelled): _iter_segments / _handle_zero_length_slice (element -> token positions for templated files).
 Strings are z3 native strings here (concatenation / prefix reasoning, no position quantifiers).
 """
-from pyvc.dsl import contract, external, spec, lemma, implies, inline, ref_class, rec_class, register_fold
+from pyvc.dsl import assumed, contract, external, spec, lemma, implies, inline, ref_class, rec_class, register_fold
 from pyvc.ty import INT, BOOL, Text, StrN, TList, TTuple, TOpt, TRec, TRef, SLICE, TOpaque
 from pyvc import ops as _ops
 from pyvc import replay as _replay
@@ -49,6 +49,23 @@ def nonempty(xs):
 def wf_lexer(m):
     """a matcher whose literal template is non-empty (checked for every bundled dialect: EXTRA below)"""
     return len(m.template) > 0
+
+
+@spec(uninterpreted=True)
+def is_regex(m: SL) -> BOOL:
+    """dynamic class of the matcher: RegexLexer (which overrides _match and search)"""
+    return type(m).__name__ == "RegexLexer"
+
+
+def _matches_axiom(m, s, result):
+    # a literal matcher matches exactly the strings that start with its template
+    return implies(not is_regex(m), result == s.startswith(m.template))
+
+
+@spec(uninterpreted=True, axiom=_matches_axiom)
+def matches(m: SL, s: StrN) -> BOOL:
+    """matcher m matches a (non-empty) prefix of s -- matchers are deterministic functions of the string"""
+    return len(s) > 0 and bool(m.match(s))
 
 
 @lemma(measure=lambda xs, ys, k: k, hyps=lambda xs, ys, k: ((xs, ys, k - 1),), props=(PROP,))
@@ -99,7 +116,11 @@ class _match:
         return wf_lexer(self)
 
     def ensures(self, forward_string, result):
-        return result is None or (len(result.raw) > 0 and forward_string.startswith(result.raw))
+        return ((result is None or (len(result.raw) > 0 and forward_string.startswith(result.raw)))
+                and implies(len(forward_string) > 0, (result is not None) == matches(self, forward_string)))
+
+    def hint_dynamic_class(self, forward_string):
+        return not is_regex(self)       # StringLexer._match's body runs only when RegexLexer does not override it
 
 
 @contract("sqlfluff.core.parser.lexer:StringLexer._trim_match", PROP)
@@ -160,7 +181,8 @@ class match:
         return (joined(result.elements) + result.forward_string == forward_string and nonempty(result.elements)
                 # progress: a match consumes at least one character
                 and implies(len(result.elements) > 0, len(result.forward_string) < len(forward_string))
-                and implies(len(result.elements) == 0, result.forward_string == forward_string))
+                and implies(len(result.elements) == 0, result.forward_string == forward_string)
+                and (len(result.elements) > 0) == matches(self, forward_string))
 
 
 @contract("sqlfluff.core.parser.lexer:PyLexer.lex_match", PROP)
@@ -172,15 +194,19 @@ class lex_match:
         return all(matcher_ok(lexer_matchers[i]) for i in range(len(lexer_matchers)))
 
     def ensures(forward_string, lexer_matchers, result, old):
-        return joined(result.elements) + result.forward_string == old.forward_string and nonempty(result.elements)
+        return (joined(result.elements) + result.forward_string == old.forward_string and nonempty(result.elements)
+                # it only stops at the end of the text or where no matcher matches
+                and (len(result.forward_string) == 0
+                     or all(not matches(lexer_matchers[i], result.forward_string) for i in range(len(lexer_matchers)))))
 
     def inv_1(forward_string, elem_buff, old):
         return joined(elem_buff) + forward_string == old.forward_string and nonempty(elem_buff)
 
-    def inv_2(forward_string, elem_buff, old, _head1):
+    def inv_2(forward_string, lexer_matchers, elem_buff, old, _head1, _i):
         return (forward_string == _head1.forward_string and elem_buff == _head1.elem_buff
                 and joined(elem_buff) + forward_string == old.forward_string and nonempty(elem_buff)
-                and len(forward_string) > 0)
+                and len(forward_string) > 0
+                and all(not matches(lexer_matchers[j], forward_string) for j in range(0, _i)))
 
     def dec_1(forward_string):
         return len(forward_string)
@@ -219,3 +245,129 @@ TRUSTED = ["RegexLexer._match / RegexLexer.search (thin wrappers over the `regex
            "z3 sequence theory for native strings"]
 NOT_COVERED = ["_iter_segments / _handle_zero_length_slice / elements_to_segments: token source positions for templated files "
                "(bounded only); violations_from_segments"]
+
+
+# ------------------------------------------------------------------ PyLexer.lex: the element loop is lossless
+@spec(uninterpreted=True)
+def covers(lx: PyLexer) -> BOOL:
+    """the dialect's matchers together with its last-resort matcher accept every non-empty string
+    (evaluated per dialect: EXTRA `dialect_matchers_wf` and C29's lexer-total obligations)"""
+    return True
+
+
+@assumed(props=(PROP,))
+def A_covers(lx: PyLexer, s: StrN):
+    """definition of `covers` (the only fact assumed about it)"""
+    return implies(covers(lx) and len(s) > 0
+                   and all(not matches(lx.lexer_matchers[i], s) for i in range(len(lx.lexer_matchers))),
+                   matches(lx.last_resort_lexer, s))
+
+
+@external("sqlfluff.core.parser.lexer:PyLexer.elements_to_segments", PROP)
+class elements_to_segments:
+    """havoc (bounded stand-in below): some tuple of segments"""
+    types = {"self": PyLexer, "elements": TList(TemplateElement), "templated_file": TemplatedFileN}
+    ret = TOpaque("Segments")
+
+    def ensures(self, elements, templated_file, result):
+        return True
+
+
+@external("sqlfluff.core.parser.lexer:PyLexer.violations_from_segments", PROP)
+class violations_from_segments:
+    types = {"segments": TOpaque("Segments")}
+    ret = TOpaque("LexErrors")
+
+    def ensures(segments, result):
+        return True
+
+
+@contract("sqlfluff.core.parser.lexer:PyLexer.lex", PROP)
+class lex:
+    types = {"self": PyLexer, "raw": TemplatedFileN, "element_buffer": TList(LexedElement), "str_buff": StrN}
+    ghost_out = {"element_buffer": TList(LexedElement)}
+    uses_axioms = [A_covers]
+    # with a total last-resort matcher nothing is raised: in particular neither the "Fatal. Unable to lex" SQLLexError
+    # nor map_template_slices' consistency ValueError (its precondition is the loop's postcondition)
+
+    def requires(self, raw):
+        return (all(matcher_ok(self.lexer_matchers[i]) for i in range(len(self.lexer_matchers)))
+                and matcher_ok(self.last_resort_lexer) and covers(self))
+
+    def ensures(self, raw, result, element_buffer):
+        # lossless, ordered: the lexed elements concatenate to exactly the rendered SQL; none is empty
+        return joined(element_buffer) == raw.templated_str and nonempty(element_buffer)
+
+    def inv_1(self, raw, element_buffer, str_buff):
+        return joined(element_buffer) + str_buff == raw.templated_str and nonempty(element_buffer)
+
+    def dec_1(self, str_buff):
+        return len(str_buff)
+
+
+def _build_lexer(rng, gen, depth=0):
+    from sqlfluff.core.parser.lexer import StringLexer as S, RegexLexer as R
+    from sqlfluff.core.parser.segments import CodeSegment, WhitespaceSegment
+    kind = rng.random()
+    sub = trim = None
+    if depth < 1 and rng.random() < 0.5:
+        sub = _build_lexer(rng, gen, depth + 1)
+    if depth < 1 and rng.random() < 0.5:
+        trim = _build_lexer(rng, gen, depth + 1)
+    if kind < 0.5:
+        return S("s", rng.choice(["a", "ab", "-", "--", " ", "b"]), CodeSegment, subdivider=sub, trim_post_subdivide=trim)
+    return R("r", rng.choice([r"a+", r"[ab]+", r"\s+", r"-+", r"[^\s]+", r"b|-"]), CodeSegment, subdivider=sub, trim_post_subdivide=trim)
+
+
+_replay.BUILDERS["StringLexer"] = _build_lexer
+
+
+# ------------------------------------------------------------------ preconditions evaluated on the bundled dialect data
+def dialect_matchers_wf(tier, seed):
+    """requires of PyLexer.lex, evaluated exhaustively on the constant lexer data of every bundled dialect:
+    every matcher (and its subdivider / trimmer) has a non-empty template; the last-resort matcher is total on a
+    probe set (full character sweep: C29)."""
+    from sqlfluff.core.dialects import dialect_readout, dialect_selector
+    from sqlfluff.core import FluffConfig
+    from sqlfluff.core.parser.lexer import PyLexer as L
+    obligations, failed, samples = 0, [], []
+    for d in dialect_readout():
+        lx = L(config=FluffConfig(overrides={"dialect": d.label}))
+        ms = list(lx.lexer_matchers) + [lx.last_resort_lexer]
+        for m in ms:
+            for sub in (m, m.subdivider, m.trim_post_subdivide):
+                if sub is None:
+                    continue
+                obligations += 1
+                if not (isinstance(sub.template, str) and len(sub.template) > 0):
+                    failed.append({"name": f"C01/{d.label}/matcher-wf[{m.name}]", "id": f"C01/{d.label}/matcher-wf[{m.name}]",
+                                   "kind": "precondition", "status": "failed", "function": "sqlfluff.core.parser.lexer:PyLexer.lex",
+                                   "detail": {"matcher": repr(sub)}, "reproduced": True})
+        obligations += 1
+        probes = ["a", " ", "\n", "\t", "\x00", "\x7f", "é", "€", "\U0001F600", "`", "$", "@", "#", "\\", "~", "^", "?", "a b", "'", '"']
+        bad = [p for p in probes if not any(m.match(p).elements for m in ms)]
+        if bad:
+            failed.append({"name": f"C01/{d.label}/last-resort-total", "id": f"C01/{d.label}/last-resort-total", "kind": "precondition",
+                           "status": "failed", "function": "sqlfluff.core.parser.lexer:PyLexer.lex", "detail": {"unmatched": bad},
+                           "reproduced": True})
+        elif len(samples) < 3:
+            samples.append({"obligation": f"C01/{d.label}/last-resort-total", "probes": len(probes), "matchers": len(ms)})
+    return {"name": "C01-dialect-matcher-preconditions", "obligations": obligations, "discharged": obligations - len(failed),
+            "failed": failed, "undecided": [], "samples": samples,
+            "trusted": ["probe set for totality of the last-resort matcher (complete character sweep under C29)"],
+            "backend": "exhaustive evaluation of preconditions on dialect data"}
+
+
+EXTRA = [dialect_matchers_wf]
+
+MUTANTS = [
+    ("trim_reorder_regression", "sqlfluff/core/parser/lexer.py", "                    if content_buff:\n                        elem_buff.append(LexedElement(content_buff, self))\n                        content_buff = \"\"\n", ""),
+    ("trim_drops_tail", "sqlfluff/core/parser/lexer.py", "        if content_buff + str_buff:\n            elem_buff.append(\n                LexedElement(content_buff + str_buff, self),\n            )", "        if str_buff:\n            elem_buff.append(\n                LexedElement(str_buff, self),\n            )"),
+    ("trim_mid_loses_char", "sqlfluff/core/parser/lexer.py", "                    content_buff += str_buff[: trim_pos[1]]\n                    str_buff = str_buff[trim_pos[1] :]", "                    content_buff += str_buff[: trim_pos[0]]\n                    str_buff = str_buff[trim_pos[1] :]"),
+    ("subdivide_skips_divider", "sqlfluff/core/parser/lexer.py", "                    elem_buff += trimmed_elems + [div_elem]", "                    elem_buff += trimmed_elems"),
+    ("match_forward_off_by_one", "sqlfluff/core/parser/lexer.py", "                forward_string[len(matched.raw) :],", "                forward_string[len(matched.raw) + 1 :],"),
+    ("lex_match_reorders", "sqlfluff/core/parser/lexer.py", "                    elem_buff += res.elements\n                    forward_string = res.forward_string", "                    elem_buff = res.elements + elem_buff\n                    forward_string = res.forward_string"),
+    ("lex_drops_resort_elements", "sqlfluff/core/parser/lexer.py", "                str_buff = resort_res.forward_string\n                element_buffer += resort_res.elements", "                str_buff = resort_res.forward_string"),
+    ("template_slices_overlap", "sqlfluff/core/parser/lexer.py", "            idx += len(element.raw)\n", "            idx += len(element.raw) - 1\n"),
+    ("string_search_span", "sqlfluff/core/parser/lexer.py", "            return loc, loc + len(self.template)", "            return loc, loc + len(self.template) - 1"),
+]
